@@ -158,6 +158,7 @@ class Extractor(object):
       if cn in ('_pack_body',): return [Item('var', None, 'body', src=e)]
       if cn == 'join' and isinstance(f, ast.Attribute) and e.args:
         a = e.args[0]
+        if isinstance(a, ast.Name) and a.id == getattr(self, '_lacc', None): return []      # pieces already accumulated statement by statement
         if isinstance(a, (ast.Tuple, ast.List)):
           out = []
           for x in a.elts: out += self.pack_expr(x, locals_)
@@ -238,11 +239,29 @@ class Extractor(object):
     acc = None
     for t, v, st, k in q.stores_in(m.node, nested=False):
       if isinstance(t, ast.Name) and k == 'augassign' and isinstance(st.op, ast.Add): acc = t.id; break
+    # a list of pieces joined at the end: parts = [a, b]; parts.append(c); return b''.join(parts)
+    lacc = None
+    joined = set(norm(c.args[0]) for c in calls_in(m.node) if call_name(c) == 'join' and c.args and isinstance(c.args[0], ast.Name))
+    for t, v, st, k in q.stores_in(m.node, nested=False):
+      if isinstance(t, ast.Name) and k == 'assign' and isinstance(v, ast.List) and t.id in joined: lacc = t.id; break
+    self._lacc = lacc
     L = []
     locals_ = {}
     def stmts (body):
       for s in body:
-        if isinstance(s, ast.AugAssign) and isinstance(s.target, ast.Name) and s.target.id == acc:
+        if lacc and isinstance(s, ast.Assign) and len(s.targets) == 1 and isinstance(s.targets[0], ast.Name) and s.targets[0].id == lacc and isinstance(s.value, ast.List):
+          del L[:]
+          for x in s.value.elts: L.extend(self.pack_expr(x, locals_))
+        elif lacc and isinstance(s, ast.Expr) and isinstance(s.value, ast.Call) and isinstance(s.value.func, ast.Attribute) and norm(s.value.func.value) == lacc and s.value.func.attr in ('append', 'extend') and len(s.value.args) == 1:
+          a_ = s.value.args[0]
+          if s.value.func.attr == 'append': L.extend(self.pack_expr(a_, locals_))
+          elif isinstance(a_, (ast.List, ast.Tuple)):
+            for x in a_.elts: L.extend(self.pack_expr(x, locals_))
+          elif isinstance(a_, (ast.GeneratorExp, ast.ListComp)): L.append(Item('list', None, field_name(a_.generators[0].iter), src=s))
+          else: raise Unknown("extend with %s" % norm(a_)[:40])
+        elif lacc and isinstance(s, ast.AugAssign) and isinstance(s.target, ast.Name) and s.target.id == lacc and isinstance(s.value, (ast.List, ast.Tuple)):
+          for x in s.value.elts: L.extend(self.pack_expr(x, locals_))
+        elif isinstance(s, ast.AugAssign) and isinstance(s.target, ast.Name) and s.target.id == acc:
           L.extend(self.pack_expr(s.value, locals_))
         elif isinstance(s, ast.Assign) and len(s.targets) == 1 and isinstance(s.targets[0], ast.Name) and s.targets[0].id == acc:
           del L[:]; L.extend(self.pack_expr(s.value, locals_))
